@@ -199,6 +199,9 @@ theorem stepAtom_nameInv (cfg : Cfg) (s : State) (a : Atom) (h : a.nameFree = tr
     | wss b0 b1 =>
       simp only [stepAtom, rxLine]
       rw [(rxWss_keeps s b0 b1 t).1]; exact hi
+    | cpr c0 =>
+      simp only [stepAtom, rxLine]
+      rw [(rxCpr_keeps s c0).1]; exact hi
     | page pgno =>
       simp only [stepAtom]
       rcases rxLine_page cfg t s pgno with e | e <;> rw [e] <;> exact hi
